@@ -62,81 +62,260 @@ def _code(e):
     return ERR.get(exc_kind(e), 9)
 
 
-def run_impl(case):
-    """-> ("ok", payload) | ("err", code).  payload: cells for pad; [cells, lens] otherwise."""
+ERRTXT = {6: "the call modified one of the caller's argument tensors in place", 7: "a non-integral / non-finite / unknown cell in the output",
+          8: "wrong trailing shape", 9: "an exception that is neither ValueError, RuntimeError nor NotImplementedError"}
+
+# ------------------------------------------------------------------------------------------
+# robustness variants: run_impl(case, alt) is the same logical call through another entry point / memory layout / dtype /
+# call history.  The property makes the result a function of the logical input, so every variant must give the canonical
+# outcome of run_impl(case) (whole tensor, lengths, kind of exception) and leave the argument tensors untouched.
+# ------------------------------------------------------------------------------------------
+HOWS = ["functional", "module", "kw", "script_fn", "script_mod", "defaults"]
+X_ALTS = ["x_tr", "x_off", "x_step", "x_expand"]
+ALTS = {"pad": HOWS + X_ALTS + ["idx_views", "twice", "alias", "relabel", "i32", "f16"],
+        "chunk": HOWS + X_ALTS + ["idx_views", "twice", "alias", "relabel", "i32", "f16", "lens_explicit"],
+        "masked": HOWS + X_ALTS + ["idx_views", "twice", "relabel", "i32", "f16"],
+        "shift": ["functional", "module", "kw", "module_kw"] + X_ALTS + ["idx_views", "twice", "relabel", "i32", "f16"]}
+_SCRIPTED = {}
+# bit patterns that arithmetic would not carry over: +-inf, NaNs, -0.0, a subnormal, +-max, 1e30
+RELABEL_BITS = [2139095040, -8388608, 2143289344, 2143289345, -2147483648, 1, 2139095039, -8388609, 1900671690]
+
+
+def _scripted(key, make):
+    if key not in _SCRIPTED:
+        _SCRIPTED[key] = torch.jit.script(make())
+    return _SCRIPTED[key]
+
+
+def _relayout(x, how):
+    """the same logical tensor with another memory layout (junk in the cells that are skipped)"""
+    if x is None or x.dim() == 0:
+        return x
+    junk = 7777
+    if how == "expand":
+        if x.shape[0] > 1 and bool((x == x[:1]).all()):
+            return x[:1].expand(x.shape)
+        how = "step"
+    if how == "tr" and x.dim() >= 2:
+        return x.transpose(0, -1).contiguous().transpose(0, -1)
+    if how in ("step", "tr"):
+        buf = torch.full(tuple(x.shape[:-1]) + (2 * x.shape[-1] + 1,), junk, dtype=x.dtype)
+        buf[..., 1::2] = x
+        return buf[..., 1::2]
+    buf = torch.full((x.numel() + 3,), junk, dtype=x.dtype)
+    buf[2:2 + x.numel()] = x.reshape(-1)
+    return buf[2:2 + x.numel()].view(x.shape)
+
+
+def _same(a, b):
+    if a.dtype != b.dtype or tuple(a.shape) != tuple(b.shape):
+        return False
+    if a.dtype == torch.float32:
+        return bool((a.contiguous().view(torch.int32) == b.contiguous().view(torch.int32)).all())
+    return bool((a == b).all())
+
+
+def _relabel(case, x):
+    """injective relabelling of the payload by special float32 bit patterns -> (x', value', decode)"""
+    vals = sorted(set(int(v) for v in x.reshape(-1).tolist()))
+    vbits = [-2147483648, 2139095040, 2143289344][(case["value"] + case["N"] + case["T"]) % 3]   # -0.0, inf, nan
+    pats = [b for b in RELABEL_BITS if b != vbits]
+    k = sum(vals) % len(pats) if vals else 0
+    pats = pats[k:] + pats[:k]
+    enc = {}
+    for i, v in enumerate(vals):
+        enc[v] = pats[i] if i < len(pats) else torch.tensor([v + 0.5], dtype=torch.float32).view(torch.int32).item()
+    value = torch.tensor([vbits], dtype=torch.int32).view(torch.float32).item()
+    xb = torch.tensor([enc[int(v)] for v in x.reshape(-1).tolist()], dtype=torch.int32).view(torch.float32).view(x.shape)
+    dec = {b: v for v, b in enc.items()}
+    dec[vbits] = case["value"]
+    return xb, value, dec
+
+
+def _cells_of(case, t, N, dec):
+    if dec is None:
+        return _cells(t, N, _F(case))
+    if t.dim() < 2 or t.size(0) != N or t.dtype != torch.float32:
+        return None
+    bits = t.detach().reshape(N, t.size(1), _F(case)).contiguous().view(torch.int32).tolist()
+    try:
+        return [[[dec[b] for b in cell] for cell in row] for row in bits]
+    except KeyError:
+        return None
+
+
+def run_impl(case, alt=None):
+    """-> ("ok", payload) | ("err", code).  payload: cells for pad; [cells, lens] otherwise.
+    alt: None = the canonical call (positional, contiguous tensors), else one of ALTS[api]."""
     import pydrobert.torch.functional as PF
     import pydrobert.torch.modules as PM
+    from pydrobert.torch import config as PC
 
     api = case["api"]
     N = case["N"]
+    how = alt if alt in ("functional", "module", "kw", "script_fn", "script_mod", "defaults", "module_kw") else None
+    if how is None:
+        how = ("functional" if case.get("functional") else "module") if api == "shift" else ("module" if case.get("module") else "functional")
     try:
         x = _x_tensor(case)
+        value, dec = float(case["value"]), None
+        if alt == "relabel":
+            x, value, dec = _relabel(case, x)
+        elif alt == "i32":
+            x = x.to(torch.int32)
+        elif alt == "f16":
+            x = x.to(torch.float16)
+        elif alt in X_ALTS:
+            x = _relayout(x, alt[2:])
+        views = alt == "idx_views"
+        mode = case.get("mode")
+        if how == "defaults" and not (mode in (None, "constant") and value == PC.DEFT_PAD_VALUE and case.get("batch_first", False) is False
+                                      and (api != "chunk" or case["lens"] is None)):
+            how = "kw"
         if api == "pad":
             pad = torch.tensor([case["pl"], case["pr"]], dtype=torch.long).view(2, len(case["pl"]))
             lens = torch.tensor(case["lens"], dtype=torch.long)
-            if case.get("module"):
-                out = PM.PadVariable(case["mode"], float(case["value"]))(x, lens, pad)
-            else:
-                out = PF.pad_variable(x, lens, pad, case["mode"], float(case["value"]))
-            if tuple(out.shape[2:]) != tuple(case["rest"]):
-                return ("err", 8)
-            c = _cells(out, N, _F(case))
-            return ("ok", c) if c is not None else ("err", 7)
-        if api == "chunk":
+            if views:
+                pad, lens = pad.t().contiguous().t(), _relayout(lens, "step")
+            if alt == "alias" and case["pl"] == case["lens"]:
+                lens = pad[0]
+            args = [x, lens, pad]
+
+            def call():
+                if how == "module":
+                    return PM.PadVariable(mode, value)(x, lens, pad)
+                if how == "script_mod":
+                    return _scripted(("PadVariable", mode, value), lambda: PM.PadVariable(mode, value))(x, lens, pad)
+                if how == "script_fn":
+                    return _scripted("pad_variable", lambda: PF.pad_variable)(x, lens, pad, mode, value)
+                if how == "kw":
+                    return PF.pad_variable(x=x, lens=lens, pad=pad, mode=mode, value=value)
+                if how == "defaults":
+                    return PF.pad_variable(x, lens, pad)
+                return PF.pad_variable(x, lens, pad, mode, value)
+            paired = False
+        elif api == "chunk":
             slices = torch.tensor(case["slices"], dtype=torch.long).view(len(case["slices"]), 2)
             lens = None if case["lens"] is None else torch.tensor(case["lens"], dtype=torch.long)
-            if case.get("module"):
-                out, ol = PM.ChunkBySlices(case["mode"], float(case["value"]))(x, slices, lens)
-            else:
-                out, ol = PF.chunk_by_slices(x, slices, lens, case["mode"], float(case["value"]))
-            if tuple(out.shape[2:]) != tuple(case["rest"]):
-                return ("err", 8)
-            c = _cells(out, N, _F(case))
-            return ("ok", [c, [int(v) for v in ol.tolist()]]) if c is not None else ("err", 7)
-        if api == "masked":
+            if alt == "lens_explicit" and lens is None:
+                lens = torch.full((N,), case["T"], dtype=torch.long)
+            if views:
+                # column views of a (2, N) buffer: slices[..., 0] is then already contiguous
+                slices, lens = slices.t().contiguous().t(), _relayout(lens, "step")
+            if alt == "alias" and lens is not None and [s[1] for s in case["slices"]] == case["lens"]:
+                lens = slices[:, 1]
+            args = [x, slices, lens]
+
+            def call():
+                if how == "module":
+                    return PM.ChunkBySlices(mode, value)(x, slices, lens)
+                if how == "script_mod":
+                    return _scripted(("ChunkBySlices", mode, value), lambda: PM.ChunkBySlices(mode, value))(x, slices, lens)
+                if how == "script_fn":
+                    return _scripted("chunk_by_slices", lambda: PF.chunk_by_slices)(x, slices, lens, mode, value)
+                if how == "kw":
+                    return PF.chunk_by_slices(x=x, slices=slices, lens=lens, mode=mode, value=value)
+                if how == "defaults":
+                    return PF.chunk_by_slices(x, slices)
+                return PF.chunk_by_slices(x, slices, lens, mode, value)
+            paired = True
+        elif api == "masked":
             mask = torch.tensor(case["mask"], dtype=torch.bool).view(N, case["T"])
             bf = case["batch_first"]
             if not bf:
-                x, mask = x.transpose(0, 1).contiguous(), mask.transpose(0, 1).contiguous()
-            if case.get("module"):
-                out, ol = PM.PadMaskedSequence(bf, float(case["value"]))(x, mask)
-            else:
-                out, ol = PF.pad_masked_sequence(x, mask, bf, float(case["value"]))
-            if not bf:
-                out = out.transpose(0, 1)
-            if tuple(out.shape) != (N, case["T"]) + tuple(case["rest"]):
-                return ("err", 8)
-            c = _cells(out, N, _F(case))
-            return ("ok", [c, [int(v) for v in ol.tolist()]]) if c is not None else ("err", 7)
-        if api == "shift":
+                x, mask = x.transpose(0, 1), mask.transpose(0, 1)
+                if not (alt in X_ALTS or views):
+                    x, mask = x.contiguous(), mask.contiguous()    # variants: the transposed views themselves
+            elif views:
+                mask = _relayout(mask, "tr")
+            args = [x, mask]
+
+            def call():
+                if how == "module":
+                    return PM.PadMaskedSequence(bf, value)(x, mask)
+                if how == "script_mod":
+                    return _scripted(("PadMaskedSequence", bf, value), lambda: PM.PadMaskedSequence(bf, value))(x, mask)
+                if how == "script_fn":
+                    return _scripted("pad_masked_sequence", lambda: PF.pad_masked_sequence)(x, mask, bf, value)
+                if how == "kw":
+                    return PF.pad_masked_sequence(x=x, mask=mask, batch_first=bf, padding_value=value)
+                if how == "defaults":
+                    return PF.pad_masked_sequence(x, mask)
+                return PF.pad_masked_sequence(x, mask, bf, value)
+            paired = True
+        elif api == "shift":
             lens = torch.tensor(case["lens"], dtype=torch.long)
+            if views:
+                lens = _relayout(lens, "step")
             p0, p1 = (float(Fraction(p)) for p in case["prop"])
-            if case.get("functional"):
+            training = case["training"]
+            if how in ("functional", "kw"):
                 # the functional form has no constructor: RandomShift.__init__'s checks are replayed here so that
                 # the outcome is the one the layer gives
                 if p0 < 0 or p1 < 0:
                     raise ValueError("prop values must be non-negative")
-                if case["mode"] == "reflect" and (p0 > 1.0 or p1 > 1.0):
+                if mode == "reflect" and (p0 > 1.0 or p1 > 1.0):
                     raise NotImplementedError("reflect")
-                layer = lambda a, b: PF.random_shift(a, b, (p0, p1), case["mode"], float(case["value"]), case["training"])
+                if how == "kw":
+                    layer = lambda a, b: PF.random_shift(input=a, in_lens=b, prop=(p0, p1), mode=mode, value=value, training=training)
+                else:
+                    layer = lambda a, b: PF.random_shift(a, b, (p0, p1), mode, value, training)
             else:
                 prop = p0 if (p0 == p1 and case.get("single_prop")) else (p0, p1)
-                layer = PM.RandomShift(prop, case["mode"], float(case["value"]))
-                layer.train(case["training"])
+                mod = PM.RandomShift(prop, mode, value)
+                mod.train(training)
+                layer = (lambda a, b: mod(input=a, in_lens=b)) if how == "module_kw" else mod
             u = torch.tensor([[float(Fraction(v)) for v in case["u0"]],
                               [float(Fraction(v)) for v in case["u1"]]], dtype=torch.float32)
 
             def fake_rand_like(t, *a, **k):
                 assert tuple(t.shape) == tuple(u.shape), "rand_like called on an unexpected shape"
                 return u.to(t.dtype)
+            args = [x, lens]
 
-            with mock.patch.object(torch, "rand_like", fake_rand_like):
-                out, ol = layer(x, lens)
-            if tuple(out.shape[2:]) != tuple(case["rest"]):
+            def call():
+                with mock.patch.object(torch, "rand_like", fake_rand_like):
+                    return layer(x, lens)
+            if "seed" in case:
+                # the real generator: eager and scripted entry points must draw and pad alike
+                if how == "script_mod":
+                    smod = _scripted(("RandomShift", p0, p1, mode, value), lambda: PM.RandomShift((p0, p1), mode, value))
+                    smod.train(training)
+                elif how == "script_fn":
+                    sfn = _scripted("random_shift", lambda: PF.random_shift)
+
+                def call():
+                    torch.manual_seed(case["seed"])
+                    if how == "script_mod":
+                        return smod(x, lens)
+                    if how == "script_fn":
+                        return sfn(x, lens, (p0, p1), mode, value, training)
+                    return layer(x, lens)
+            elif how in ("script_mod", "script_fn"):
+                raise KeyError("scripted RandomShift needs a seed-driven case")
+            paired = True
+        else:
+            raise KeyError(api)
+        snap = [None if t is None else t.clone() for t in args]
+        if alt == "twice":
+            call()
+        raw = call()
+        if not all(t is None or _same(t, s_) for t, s_ in zip(args, snap)):
+            return ("err", 6)
+        out, ol = raw if paired else (raw, None)
+        if api == "masked":
+            if not case["batch_first"]:
+                out = out.transpose(0, 1)
+            if tuple(out.shape) != (N, case["T"]) + tuple(case["rest"]):
                 return ("err", 8)
-            c = _cells(out, N, _F(case))
-            return ("ok", [c, [int(v) for v in ol.tolist()]]) if c is not None else ("err", 7)
-        raise KeyError(api)
+        elif tuple(out.shape[2:]) != tuple(case["rest"]):
+            return ("err", 8)
+        if out.dtype != x.dtype:
+            return ("err", 8)
+        c = _cells_of(case, out, N, dec)
+        if c is None:
+            return ("err", 7)
+        return ("ok", [c, [int(v) for v in ol.tolist()]]) if paired else ("ok", c)
     except (ValueError, RuntimeError, NotImplementedError) as e:
         return ("err", _code(e))
     except Exception as e:  # anything else is not a legal outcome
@@ -220,7 +399,7 @@ def model_term(case, out):
 def spec_term(case, out):
     a = _args(case)
     api = case["api"]
-    if out[0] == "err" and out[1] >= 7:
+    if out[0] == "err" and out[1] >= 6:
         return "false"
     if api == "pad":
         _, impl = _impl_term(case, out, False)
@@ -483,7 +662,136 @@ def random_cases(rng, n):
                 c["single_prop"] = True
         if api != "shift" and rng.random() < 0.15:
             c["module"] = True
+        c["alts"] = rng.sample(ALTS[api], 2)
         c["stream"] = "random"
+        cases.append(c)
+    return cases
+
+
+def _ragged_lens(rng, N, T, lo):
+    return [rng.choice([lo, T, T, rng.randint(lo, T)]) for _ in range(N)]
+
+
+def audit_cases(rng, k=1):
+    """streams aimed at the situations a generic draw meets too rarely (see notes/C09_report.md, Robustness audit)"""
+    cases = []
+
+    def add(c, stream, nalts=2, force=()):
+        pool = [a for a in ALTS[c["api"]] if a not in force]
+        c["alts"] = list(force) + rng.sample(pool, nalts)
+        c["audit"] = stream
+        if rng.random() < 0.2:
+            c["module"] = True
+        c["stream"] = stream
+        cases.append(c)
+
+    def kw():
+        return dict(value=rng.choice([-7, 0, 5]), dtype=rng.choice(["f64", "f32", "i64"]), salt=rng.choice([0, 1000]))
+    # (1) evaluation mode of the shift layer: over-allocated T, payload beyond the lengths, empty sequences, any mode / proportion
+    for _ in range(60 * k):
+        N, T = rng.choice([1, 2, 3, 4]), rng.choice([1, 2, 3, 5, 8])
+        mode = rng.choice(MODES)
+        lens = [rng.choice([0, rng.randint(0, T), max(T - 1, 0), T]) for _ in range(N)]
+        if rng.random() < 0.5:
+            lens = [min(ln, T - 1) for ln in lens]          # nobody fills the tensor
+        if rng.random() < 0.5:
+            lens[rng.randrange(N)] = 0
+        hi = 8 if mode == "reflect" else 24
+        prop = (Fraction(rng.randint(0, hi), 8), Fraction(rng.randint(0, hi), 8))
+        us = lambda: [Fraction(rng.randint(0, 1023), 1024) for _ in range(N)]
+        c = shift_case(N, T, _rest_for(rng.choice([1, 1, 2, 4]), rng), lens, mode, prop, False, us(), us(), **kw())
+        if rng.random() < 0.5:
+            c["functional"] = True
+        add(c, "audit-shift-eval", 2)
+    # (2) pads larger than T through every entry point that shares the padding helper
+    for _ in range(120 * k):
+        N, T = rng.choice([1, 2, 3]), rng.choice([1, 1, 2, 3, 4])
+        mode = rng.choice(["replicate", "replicate", "replicate", "constant"])
+        lo = 1 if mode == "replicate" else 0
+        lens = _ragged_lens(rng, N, T, lo)
+        rest = _rest_for(rng.choice([1, 1, 2, 4]), rng)
+        big = lambda: rng.choice([T + 1, T + 2, 2 * T + 1, rng.randint(T + 1, 4 * T + 3), rng.choice([40, 130, 257])])
+        small = lambda: rng.choice([0, 0, 1, rng.randint(0, T)])
+        api = rng.choice(["pad", "chunk", "shift"])
+        if api == "pad":
+            pl = [big() if rng.random() < 0.5 else small() for _ in range(N)]
+            pr = [big() if rng.random() < 0.5 else small() for _ in range(N)]
+            if all(p <= T for p in pl + pr):
+                (pl if rng.random() < 0.5 else pr)[rng.randrange(N)] = big()
+            c = pad_case(N, T, rest, lens, pl, pr, mode, **kw())
+        elif api == "chunk":
+            slices = []
+            for ln in lens:
+                r = rng.random()
+                if r < 0.35:
+                    slices.append((-big(), rng.randint(-2, ln + 2)))
+                elif r < 0.7:
+                    slices.append((rng.randint(-2, ln), ln + big()))
+                elif r < 0.8:
+                    slices.append((-big(), ln + big()))
+                else:
+                    slices.append((rng.randint(-2, ln + 1), rng.randint(-2, ln + 2)))
+            c = chunk_case(N, T, rest, None if all(ln == T for ln in lens) and rng.random() < 0.5 else lens, slices, mode, **kw())
+        else:
+            lens = [T if rng.random() < 0.7 else ln for ln in lens]
+            prop = (Fraction(rng.randint(8, 24), 8), Fraction(rng.randint(8, 24), 8))
+            us = lambda: [rng.choice([Fraction(1023, 1024), Fraction(7, 8), Fraction(3, 4), Fraction(rng.randint(512, 1023), 1024)]) for _ in range(N)]
+            c = shift_case(N, T, rest, lens, mode, prop, True, us(), us(), **kw())
+            if rng.random() < 0.5:
+                c["functional"] = True
+        add(c, "audit-pad-gt-T", 2)
+    # (3) a slice lying wholly to the right whose right padding exceeds every chunk length and left pad of the batch,
+    #     followed by rows that need right padding as well
+    for _ in range(80 * k):
+        N, T = rng.choice([2, 3, 4]), rng.choice([3, 4, 5, 6])
+        mode = rng.choice(MODES)
+        lens = [rng.randint(3, T) for _ in range(N)]
+        w = rng.choice([1, 1, 2])                           # longest chunk / left pad of the batch
+        far = rng.randrange(N - 1)
+        slices = []
+        for n, ln in enumerate(lens):
+            if n == far:
+                if mode == "reflect":
+                    e = rng.randint(ln + w + 1, 2 * ln - 1) if ln + w + 1 <= 2 * ln - 1 else 2 * ln - 1
+                else:
+                    e = ln + w + rng.randint(1, 6)
+                slices.append((e - rng.randint(0, w), e))
+            elif n > far:
+                # needs right padding, at most w of it, chunk no longer than w
+                e = ln + rng.randint(1, w)
+                slices.append((e - rng.randint(1, w), e))
+            else:
+                s0 = rng.randint(-w, ln - 1)
+                slices.append((s0, s0 + rng.randint(0, w)))
+        c = chunk_case(N, T, _rest_for(rng.choice([1, 1, 2]), rng), lens, slices, mode, **kw())
+        add(c, "audit-chunk-right-dominant", 1)
+    # (4) argument aliasing and call history: pad amounts equal to the lengths (pad[0] passed as lens), slice ends equal to the
+    #     lengths (a column of slices passed as lens), single-row batches whose slice columns are already contiguous
+    for _ in range(60 * k):
+        N, T = rng.choice([1, 1, 2, 3]), rng.choice([1, 2, 3, 4, 6])
+        mode = rng.choice(["constant", "replicate", "replicate"])
+        lens = _ragged_lens(rng, N, T, 1)
+        if rng.random() < 0.4:
+            c = pad_case(N, T, [], lens, list(lens), [rng.randint(0, T + 2) for _ in range(N)], mode, **kw())
+        else:
+            mode = rng.choice(MODES)
+            slices = [(rng.randint(-(ln - 1), ln - 1) if rng.random() < 0.8 else 0, ln) for ln in lens]
+            c = chunk_case(N, T, [], lens, slices, mode, **kw())
+        add(c, "audit-alias-history", 1, force=("alias", "twice", "idx_views"))
+    # (5) the real generator: eager and scripted layer / function under the same seed; judged by Spec.spec_shift_okb
+    for _ in range(60 * k):
+        N, T = rng.choice([1, 2, 3]), rng.choice([1, 2, 4, 6, 8])
+        mode = rng.choice(MODES)
+        lo = 0 if mode == "constant" else 1
+        lens = _ragged_lens(rng, N, T, lo)
+        den = 4
+        hi = den if mode == "reflect" else 3 * den
+        prop = rng.choice([(Fraction(rng.randint(0, hi), den), Fraction(rng.randint(0, hi), den)), (Fraction(1), Fraction(1)), (Fraction(1, 2), Fraction(0))])
+        c = shift_case(N, T, _rest_for(rng.choice([1, 1, 2]), rng), lens, mode, prop, rng.random() < 0.85, ["0"] * N, ["0"] * N, **kw())
+        c["seed"] = rng.randint(0, 2 ** 31 - 1)
+        c["functional"] = rng.random() < 0.5
+        c["alts"] = ["script_mod", "script_fn"] + rng.sample(["twice", "x_tr", "x_step", "module", "functional", "kw"], 1)
+        c["stream"] = "audit-shift-seed"
         cases.append(c)
     return cases
 
@@ -504,6 +812,8 @@ def nontrivial(case):
     if api == "shift":
         if not case["training"]:
             return False
+        if "seed" in case:
+            return any(Fraction(p) * ln >= 2 for p in case["prop"] for ln in case["lens"])
         return any(int(Fraction(p) * ln * Fraction(u)) > 0
                    for p, us in zip(case["prop"], (case["u0"], case["u1"])) for ln, u in zip(case["lens"], us))
     return False
@@ -565,9 +875,32 @@ def _strip(case):
     return c
 
 
+def _term(case, out):
+    """seed-driven shift cases have no variates to hand to the model: the spec's boolean reading judges them"""
+    return spec_term(case, out) if "seed" in case else model_term(case, out)
+
+
 def _fails(chk, case):
     out = run_impl(case)
-    return not coq_eval_bools(chk.workdir, IMPORTS, [model_term(case, out)], tag="shr")[0]
+    return not coq_eval_bools(chk.workdir, IMPORTS, [_term(case, out)], tag="shr")[0]
+
+
+def same_outcome(base, other, alt):
+    if alt in ("script_fn", "script_mod") and base[0] == "err" and other[0] == "err" and other[1] not in (6, 7, 8):
+        return True     # TorchScript turns every raise into its own torch.jit.Error
+    return base == other
+
+
+def run_alts(case, out):
+    """-> list of (alt, outcome) that differ from the canonical outcome"""
+    bad = []
+    for a in case.get("alts") or []:
+        if a not in ALTS[case["api"]] and a not in ("script_fn", "script_mod"):
+            continue
+        oa = run_impl(case, a)
+        if not same_outcome(out, oa, a):
+            bad.append((a, oa))
+    return bad
 
 
 def _drop_row(case, n):
@@ -628,11 +961,13 @@ def _cands(case):
 def judge(chk, case, out):
     spec_ok = coq_eval_bools(chk.workdir, IMPORTS, [spec_term(case, out)], tag="spec")[0]
     rec = {"case": case, "impl": out,
-           "model": coq_eval_print(chk.workdir, IMPORTS, model_show(case)),
+           "model": None if "seed" in case else coq_eval_print(chk.workdir, IMPORTS, model_show(case)),
            "spec_accepts_impl": spec_ok,
            "correspondence": "corr:C09:" + {"pad": "pad_variable", "chunk": "chunk_by_slices",
                                             "masked": "pad_masked_sequence", "shift": "RandomShift"}[case["api"]],
            "theorems_at_stake": THEOREMS[case["api"]]}
+    if out[0] == "err" and out[1] in ERRTXT:
+        rec["note"] = ERRTXT[out[1]]
     if spec_ok:
         rec["what"] = ("implementation differs from the model (e.g. in the region after the valid part, or in the "
                        "kind of error) but its output satisfies the property's boolean reading")
@@ -660,7 +995,13 @@ def run(chk, cases=None):
             c = c.get("case", c)
             c["stream"] = "corpus"
             cases.append(c)
+        # one variant on a slice of the enumerated cases (deterministic choice)
+        for i, c in enumerate(cases):
+            if i % 6 == 0:
+                pool = ALTS[c["api"]]
+                c["alts"] = [pool[(i // 6) % len(pool)]]
         cases += random_cases(chk.rng, 12000 if chk.tier == "thorough" else 1000)
+        cases += audit_cases(chk.rng, 8 if chk.tier == "thorough" else 1)
         if chk.tier == "thorough":
             chk.extra["exhaustive"] = True
             chk.extra["exhaustive_scope"] = (
@@ -670,11 +1011,16 @@ def run(chk, cases=None):
     import time
     t_start = time.time()
     outs, terms, metas = [], [], []
-    for c in cases:
+    alt_bad = []
+    for i_, c in enumerate(cases):
         stream = c.pop("stream", "random")
         out = run_impl(c)
         outs.append(out)
-        terms.append(model_term(c, out))
+        terms.append(_term(c, out))
+        for a_, oa_ in run_alts(c, out):
+            alt_bad.append((i_, a_, oa_))
+        for a_ in c.get("alts") or []:
+            chk.count("alt=" + a_)
         chk.note_case(c, nontrivial(c), stream)
         chk.count("api=" + c["api"])
         if "mode" in c:
@@ -704,13 +1050,20 @@ def run(chk, cases=None):
     # the property's own metamorphic relations, on a slice of the cases
     step = 1 if replaying else (3 if chk.tier == "thorough" else 7)
     nmeta = 0
-    for i in range(0, len(cases), step):
+    for i in sorted(set(range(0, len(cases), step)) | {j for j, c in enumerate(cases) if c.get("audit")}):
         m = metamorphic(cases[i], outs[i])
         nmeta += 1
         if m is not None:
             chk.report({"case": cases[i], "impl": outs[i], "what": "metamorphic: " + m["what"],
                         "sub_case": m["sub"], "sub_impl": m["sub_out"]})
     chk.extra["metamorphic_cases"] = nmeta
+    chk.extra["variant_disagreements"] = len(alt_bad)
+    for i, a, oa in alt_bad[:6]:
+        chk.report({"case": cases[i], "impl": outs[i], "variant": a, "variant_impl": oa,
+                    "what": "relation: the same logical call through variant '%s' (entry point / memory layout / dtype / call history / "
+                            "aliasing, see ALTS in harness/props/c09.py) gives a different outcome than the canonical call%s"
+                            % (a, "; " + ERRTXT[oa[1]] if oa[0] == "err" and oa[1] in ERRTXT else ""),
+                    "correspondence": "corr:C09:variants"})
     found_concrete = False
     for i in bad[:6]:
         case = shrink(cases[i], lambda c: _fails(chk, c), _cands, budget=30)
